@@ -322,7 +322,16 @@ Definition P_C11_event (cfg : config) (i : nat) (sp sp' : spec) (s : c11st) (e :
       ({| u_last := drop_conn c (u_last s1); u_expect := drop_conn c (u_expect s1); u_deleted := u_deleted s1 |}, v1)
   | OSnap =>
       (s1, v1 ++ snap_check cfg {| k_parts := false; k_ents := true; k_comps := false; k_acts := false; k_assets := false;
-                                   k_types := false; k_subs := false; k_reg := false |} 1100 i sp e)
+                                   k_types := false; k_subs := false; k_reg := false |} 1100 i sp e ++
+           (* an update that a frame flushed must be in the connection's queue until it is consumed *)
+           flat_map (λ d : delivery, match snd d with
+             | MSnap _ _ q =>
+                 flat_map (λ kv : (N * N) * list N,
+                   match kv.2 with
+                   | [] => []
+                   | _ => if existsb (λ cn : N * N, (cn.1 =? kv.1.1) && (cn.2 =? 0)) q then [viol i 1106 [zn kv.1.1; zn kv.1.2]] else []
+                   end) (map_to_list (u_expect s1))
+             | _ => [] end) (ev_outs e))
   | _ => (s1, v1)
   end.
 Definition P_C11_join (cfg : config) (i : nat) (sp sp' : spec) (e : event) : list violation :=
